@@ -12,26 +12,27 @@ NONDETERMINISTIC = {'random', 'time', 'datetime', 'os', 'uuid', 'id', 'hash', 'i
 
 def determinism_obligations(pr):
     """lint_script and its helpers call nothing nondeterministic, and every iteration whose order reaches the output is
-    over a list or over sorted(...) of a dictionary's keys"""
+    never over a set (hash order); lists, sorted(...) and dictionaries in insertion order are deterministic"""
     m = Repo().modules['model']
     for fname in ('lint_script', '_is_pointless_expression', '_get_variable_assignments_and_uses', '_get_expression_variable_uses'):
         fn = m.functions[fname]
         bad = []
+        set_names = {t.id for n in ast.walk(fn) if isinstance(n, ast.Assign) for t in n.targets if isinstance(t, ast.Name) and (
+            isinstance(n.value, (ast.Set, ast.SetComp)) or (isinstance(n.value, ast.Call) and isinstance(n.value.func, ast.Name) and n.value.func.id in ('set', 'frozenset')))}
         for node in ast.walk(fn):
             if isinstance(node, ast.Call):
                 f = node.func
                 name = f.id if isinstance(f, ast.Name) else (f.value.id if isinstance(f, ast.Attribute) and isinstance(f.value, ast.Name) else '')
                 if name in NONDETERMINISTIC:
                     bad.append(f'line {node.lineno}: call through {name}')
-            if isinstance(node, ast.For):
+            if isinstance(node, (ast.For, ast.comprehension)):
+                # iteration over a set of strings depends on the process's hash seed; lists, sorted(...) and dictionaries
+                # (insertion order) are deterministic for a given model
                 it = node.iter
-                ok = True
-                if isinstance(it, ast.Call) and isinstance(it.func, ast.Attribute) and it.func.attr in ('keys', 'values', 'items'):
-                    ok = False          # dictionary order (insertion order) would reach the output
-                if isinstance(it, ast.Name) and it.id.endswith(('_defined', '_used', '_assigns', '_uses')):
-                    ok = False
-                if not ok:
-                    bad.append(f'line {node.lineno}: iteration in dictionary order')
+                if isinstance(it, (ast.Set, ast.SetComp)) or \
+                        (isinstance(it, ast.Call) and isinstance(it.func, ast.Name) and it.func.id in ('set', 'frozenset')) or \
+                        (isinstance(it, ast.Name) and it.id in set_names):
+                    bad.append(f'line {getattr(node, "lineno", getattr(it, "lineno", 0))}: iteration over a set (hash order)')
         pr.add_obligation(f'C18.deterministic.{fname}', 'sat' if bad else 'unsat', 'syntactic', 0.0, detail='; '.join(bad),
                           function=f'model.{fname}', replay={'reproduced': bool(bad), 'observed': {'sites': bad}})
 
@@ -47,8 +48,8 @@ def run(tier):
                       '(no exception), never store below the frozen model bound, write only containers they allocated, and '
                       'return a fresh list; _is_pointless_expression(e) implies e contains no function node (recursive spec, '
                       'recursion by contract), and the non-call arms of evaluate_expression make no host call and no store, so '
-                      'deleting a pointless statement changes nothing; determinism: no nondeterministic callee, output order only '
-                      'through lists and sorted(keys). Label warnings, one-step specifications '
+                      'deleting a pointless statement changes nothing; determinism: no nondeterministic callee, no iteration '
+                      'over a set. Label warnings, one-step specifications '
                       '(induction over the loops is a meta-theorem): the label maps are empty at the head of every scope, each '
                       'statement adds exactly the label it defines / jumps to, a label statement warns iff it redefines, the '
                       'reporting loops warn for exactly the names missing from the other map and name them; the assignment/use '
